@@ -149,9 +149,11 @@ def r2_status(ctx, F):
                       (fname, c.short if c else repr(v), table[fname]))
     gp = F.body('checker::explorer::get_properties')
     ctx.touched(gp)
-    cl = F.closures_under(gp)
-    ok = any(x.calls_to('Checker::discovery') for x in cl) and any(x.calls_to('Path::encode') for x in cl) and \
-        len(gp.calls_to('Model::properties')) == 1
+    gn = F.norm(gp)
+    loops = [c for c in gn.calls_to('Iterator::next') if gn.in_cycle(c.bb)]
+    # inside the loop over the properties (a `map` closure or a `for` body: same thing in normal form)
+    per_prop = lambda pat: any(any(gn.dominates(h.bb, c.bb) for h in loops) for c in gn.calls_to(pat))
+    ok = per_prop('Checker::discovery') and per_prop('Path::encode') and len(gn.calls_to('Model::properties')) == 1
     ctx.check(ok, rule, 'properties-with-encoded-discovery', gp,
               good='each property is listed with the encoded path of its discovery',
               bad='explorer::get_properties does not list every property with checker.discovery(name).encode()')
@@ -172,20 +174,21 @@ def r3_path_constructors(ctx, F):
                       good='%s seeds from init_states and steps through %s' % (name, stepper.split('::')[-1]),
                       bad='Path::%s does not seed from init_states / step through %s' % (name, stepper))
             if by_fp:
-                # matching closures compare fingerprint(candidate) with the expected fingerprint by equality
-                cmp_ = []
-                for x in bs:
-                    if x is b:
-                        continue
-                    fpc = x.calls_to('fingerprint')
-                    eq = [c for c in x.calls_to('PartialEq::eq')] + \
-                         [1 for (i, si, st) in x.assigns(lambda st: st['rv']['k'] == 'bin' and st['rv']['op'] == 'Eq')]
-                    if fpc and eq:
-                        cmp_.append(x)
+                # candidates are selected by comparing fingerprint(candidate) with the expected
+                # fingerprint for equality - read in loop normal form (A12), so `find`, `find_map`, a
+                # helper or a `for` loop are all the same
+                from common import comparisons
+                n = F.norm(b)
+
+                def is_fp(v):
+                    v = noref(v)
+                    c = n.call_at(v.key) if v.kind == 'call' else None
+                    return c is not None and c.is_('fingerprint')
+                cmp_ = [x for x in comparisons(n) if x[2] in ('eq', 'ne') and (is_fp(x[0]) or is_fp(x[1]))]
                 ctx.check(len(cmp_) >= 2, rule, '%s-matches-by-fingerprint-equality' % name, b,
                           good='both the initial and the next state are selected by fingerprint equality',
                           bad='Path::%s does not select initial and next states by fingerprint equality '
-                              '(%d matching closures)' % (name, len(cmp_)))
+                              '(%d matching comparisons)' % (name, len(cmp_)))
             else:
                 cont = [c for c in b.calls_to('slice::contains', 'Vec::contains')]
                 okc = len(cont) == 1 and noref(b.val(cont[0].args[1])).kind == 'arg'
@@ -195,6 +198,9 @@ def r3_path_constructors(ctx, F):
                 # the step taken has the requested action (equality in the find closure) - and None on miss
                 nones = [i for (i, si, st) in b.assigns(lambda st: st['lhs']['l'] == 0 and st['rv']['k'] == 'agg'
                                                         and st['rv'].get('variant') == 'None')]
+                # `expr?` returns None through FromResidual
+                nones += [c.bb for c in b.calls_to('FromResidual::from_residual')
+                          if c.dest['l'] == 0 and not c.dest['p']]
                 ctx.check(len(nones) >= 2, rule, 'from_actions-rejects-unknown', b,
                           good='an unknown initial state or action yields None',
                           bad='Path::from_actions cannot reject an unknown initial state / action')
